@@ -190,9 +190,13 @@ def _interesting(ops):
 
 def _pq_random(PQ, rng, counters):
     nitems = rng.randint(2, 12)
-    kind = rng.choice(["scalar", "scalar_small", "tuple2", "mixed", "neg"])
+    kind = rng.choice(["scalar", "scalar_small", "tuple2", "mixed", "neg", "wide"])
 
     def score():
+        if kind == "wide":
+            # the whole range of a C int, components further apart than 2^31
+            w = lambda: rng.choice([-2_000_000_000, 2_000_000_000, -(2**31) + 1, 2**31 - 1, 0, 1, -1, rng.randint(-(2**31) + 1, 2**31 - 1)])
+            return w() if rng.random() < 0.5 else (w(), w())
         if kind == "scalar":
             return rng.randint(0, 1000)
         if kind == "scalar_small":
@@ -335,6 +339,45 @@ def _cf_replay(values, merges, counters):
     counters["cf_merges"] = counters.get("cf_merges", 0) + len(merges)
 
 
+def _cf_long(rng, counters):
+    """Long merge histories without intermediate finds (deep, uncompressed parent chains), checked at the end only: every element's
+    representative must be the minimum of its component (own union-find with explicit minimum)."""
+    from whatshap.graph import ComponentFinder
+
+    n = rng.randint(1100, 3000)
+    shape = rng.choice(["descending", "descending", "ascending", "random", "blocks"])
+    if shape == "descending":
+        merges = [(k, k + 1) for k in range(n - 2, -1, -1)]
+    elif shape == "ascending":
+        merges = [(k, k + 1) for k in range(n - 1)]
+    elif shape == "blocks":
+        merges = [(k, k + 1) for k in range(n - 2, -1, -1) if k % 97 != 0]
+    else:
+        merges = [tuple(rng.sample(range(n), 2)) for _ in range(n)]
+    if rng.random() < 0.5:
+        merges = [(b, a) for a, b in merges]
+    cf = ComponentFinder(range(n))
+    parent = list(range(n))
+
+    def root(x):
+        while parent[x] != x:
+            parent[x] = parent[parent[x]]
+            x = parent[x]
+        return x
+
+    for a, b in merges:
+        cf.merge(a, b)
+        ra, rb = root(a), root(b)
+        if ra != rb:
+            parent[max(ra, rb)] = min(ra, rb)  # the root of a component is its minimum
+    for v in ([n - 1, 0] + rng.sample(range(n), 200)):
+        got = cf.find(v)
+        if got != root(v):
+            raise Viol("after %d %s merges over %d elements (no find in between): find(%r)=%r, minimum of its component is %r" % (len(merges), shape, n, v, got, root(v)))
+    counters["cf_long_histories"] = counters.get("cf_long_histories", 0) + 1
+    counters["cf_long_merges"] = counters.get("cf_long_merges", 0) + len(merges)
+
+
 def _cf_interesting(values, merges):
     rep = {v: {v} for v in values}
     for x, y in merges:
@@ -440,6 +483,11 @@ def run_case(idx, rng, tier, lane):
                     merges.append((x, y))
                 _cf_replay(values, merges, counters)
                 counters["cf_random_histories"] = counters.get("cf_random_histories", 0) + 1
+                if rep % 10 == 0:
+                    try:
+                        _cf_long(rng, counters)
+                    except RecursionError as e:
+                        raise Viol("long merge history: %s: %s" % (type(e).__name__, e))
                 if _cf_interesting(values, merges):
                     keys.add(hashlib.sha1(repr(merges).encode()).hexdigest()[:16])
             sample = {"kind": "cf-random", "values": values[:8], "merges": merges[:8]}
